@@ -84,7 +84,12 @@ static void check_projection(Ctx& ctx, const Ell& E, const Under& U, const Oracl
     double x = NAN, y = NAN, gam = NAN, k = NAN; int sg = 0;
     try { sg = mc::crashed([&] { U.fwd(lon0, lat, lon, x, y, gam, k); }); } catch (const std::exception& e) { FAIL("fwd-exception", e.what()); continue; }
     if (sg) { FAIL("fwd-crash", "signal " + fmti(sg)); continue; }
-    if (!(std::isfinite(x) && std::isfinite(y) && std::isfinite(gam) && std::isfinite(k))) { FAIL("fwd-nonfinite", "x=" + fmt(x) + " y=" + fmt(y) + " gamma=" + fmt(gam) + " k=" + fmt(k)); continue; }
+    if (!(std::isfinite(x) && std::isfinite(y) && std::isfinite(gam) && std::isfinite(k))) {
+      // open finding: AlbersEqualArea with a pole as one of two different standard parallels on a prolate ellipsoid: Forward at that pole returns NaN
+      const bool res = !O.conformal && E.f < 0 && std::fabs(lat) == 90 && O.rho0 == 0 && stdlats.size() == 2 && stdlats[0] != stdlats[1] && (stdlats[0] == lat || stdlats[1] == lat);
+      FAIL("fwd-nonfinite", "x=" + fmt(x) + " y=" + fmt(y) + " gamma=" + fmt(gam) + " k=" + fmt(k), res ? mc::Fields{{"defect", "albers-pole-parallel-prolate-forward-nan"}} : mc::Fields{});
+      continue;
+    }
 
     const Lat L = proj_cf::latd(lat);
     const Q lam = Q(dlon) * proj_cf::deg();
@@ -508,9 +513,14 @@ int main(int argc, char** argv) {
         std::vector<double> stds = {sp.l1, sp.l2};
         const bool pole_plus_parallel = albers && !sp.single && (std::fabs(sp.l1) == 90 || std::fabs(sp.l2) == 90) && sp.l1 != sp.l2;
         if (pole_plus_parallel) for (Under& U : forms) {
-          // finding: AlbersEqualArea::Init sets polar = (cphi1 == 0) before ordering the parallels: with the pole given FIRST the second parallel is ignored (azimuthal
-          // projection); with the pole second the general code runs with a clamped cosine and yields NaN / inaccurate Reverse in places.  The documentation admits these inputs.
-          U.defect = "albers-pole-plus-parallel"; U.defect_blanket = true;
+          // defect found by this check (repaired in /repo, kept as a recognised class): AlbersEqualArea::Init set polar = (cphi1 == 0) before ordering the parallels, so with
+          // the pole given FIRST the second parallel was ignored and the azimuthal projection of that pole resulted
+          const bool pole_first = U.name.find(std::string(",") + fmt(sp.l2) + "," + fmt(sp.l1) + ",k1") != std::string::npos ? std::fabs(sp.l2) == 90 : std::fabs(sp.l1) == 90;
+          if (!pole_first) continue;
+          Lat Lp = std::fabs(sp.l1) == 90 ? L1 : L2;
+          Oracle Oaz = make_albers_oracle(E, Lp, Lp, k1);
+          U.defect = "albers-pole-first-second-parallel-ignored";
+          U.defect_image = Oaz.fwd; U.defect_k = Oaz.k;
         }
         if (albers_south && !pole_plus_parallel) for (Under& U : forms) {
           // defect found by this check (repaired in /repo, kept as a recognised class): AlbersEqualArea::Forward applied _sign twice to the latitude, so on a southern cone it returned the image of -lat
@@ -575,7 +585,6 @@ int main(int argc, char** argv) {
           }
           Family f2 = fam;
           if (south_defect_present) { U.defect = "albers-south-forward-uses-minus-lat"; U.defect_blanket = true; }
-          if (pole_plus_parallel) { U.defect = "albers-pole-plus-parallel"; U.defect_blanket = true; }
           const Q r = Q(ks) / kold;                                 // factor by which SetScale changes the scale
           if (!albers && fabsq(r - 1) > 1e-15Q && Os.n != 0 && fabsq(Os.n) != 1) {
             // defect found by this check (repaired in /repo, kept as a recognised class): LambertConformalConic::SetScale rescaled _scale and _k0 but not _nrho0 (= n rho0) and _drhomax: Forward then returned
